@@ -208,7 +208,7 @@ inductive Kids (g : Grammar) (nul : List Bool) : Expr → Nat → Nat → T → 
       Kids g nul (.plus e) lo hi (t1.append t2)
   | optNil {e p} : Kids g nul (.opt e) p p .nil
   | optSome {e lo hi t} : Kids g nul e lo hi t → Kids g nul (.opt e) lo hi t
-  | capEmpty {e p} : Kids g nul (.cap e) p p .nil
+  | capEmpty {e p} : nullable nul e = true → Kids g nul (.cap e) p p .nil
   | capNode {e b e' up} : Kids g nul e b e' up → b < e' → Kids g nul (.cap e) b e' (.node g.pegText b e' up .nil)
 
 theorem Kids.le {g : Grammar} {nul : List Bool} {e : Expr} {lo hi : Nat} {t : T} (h : Kids g nul e lo hi t) : lo ≤ hi := by
@@ -343,9 +343,14 @@ theorem run_kids {g : Grammar} {nul : List Bool} (hn : NulSound g nul) :
         simp only [Res.ok.injEq] at h
         obtain ⟨rfl, rfl, rfl⟩ := h
         have hk := ih e pos s _ _ _ h1
+        have inv := run_ok hn fuel e pos s _ _ _ h1
         simp only [prune]
         split
-        · rename_i heq; subst heq; exact .capEmpty
+        · rename_i heq; subst heq
+          apply Kids.capEmpty
+          cases hne : nullable nul e with
+          | true => rfl
+          | false => have := inv.2.2 hne; omega
         · have hp := run_pos h1
           exact .capNode hk (by omega)
       · rename_i x hx
